@@ -6,6 +6,7 @@ import (
 	"encoding/json"
 	"fmt"
 	"os"
+	"os/exec"
 	"path/filepath"
 	"regexp"
 	"sort"
@@ -1234,4 +1235,155 @@ func TestE2Cluster(t *testing.T) {
 			return map[string]any{"program": stats.Trunc(c.src, 600), "maxjobs": maxJobs, "max_running": maxRun, "submitted": len(submitted)}
 		})
 	})
+}
+
+// TestE2CrashPoints: C05 with the crash placed by system call count - mrp
+// runs under strace, which delivers SIGKILL when one of its threads makes its
+// n-th file-system or write call (between creating a directory and writing
+// into it, between a job's _complete and the journal scan, in the middle of
+// writing _finalstate, ...), 1-3 times in a row with generated n; then mrp is
+// restarted without the tracer.  Same oracle as TestE2Interrupt.
+func TestE2CrashPoints(t *testing.T) {
+	if _, err := exec.LookPath("strace"); err != nil {
+		t.Skip("strace not available")
+	}
+	root := workRoot(t)
+	propOverride = "C05"
+	defer func() { propOverride = "" }()
+	rapid.Check(t, func(t *rapid.T) {
+		prog := mrogen.GenProgram(t, e2Cfg())
+		for k := range excluded {
+			delete(excluded, k)
+		}
+		c, done := newE2(t, root, "e2cp", prog, "C05", 25)
+		if c == nil {
+			return
+		}
+		defer done()
+		c.Plan.SleepMs = rapid.SampledFrom([]int{0, 5, 20}).Draw(t, "jobMs")
+		c.Plan.Write(c.Dir)
+		nCrash := rapid.IntRange(1, 3).Draw(t, "crashes")
+		var classes []string
+		inside := false
+		completedBefore := map[string]bool{}
+		var restartAt int64
+		for i := 0; i < nCrash; i++ {
+			// (mrp makes a few hundred such calls before the pipestance
+			// directory exists; a restart of an existing one fewer)
+			lo := 300
+			if i > 0 {
+				lo = 220
+			}
+			n := rapid.IntRange(lo, 1300).Draw(t, "crashOrdinal")
+			c.Wrap = mrprun.StraceKill(n)
+			p, err := c.Start("--localcores=4", "--localmem=8")
+			if err != nil {
+				t.Fatalf("INFRA: %v", err)
+			}
+			rc := p.Wait(200 * time.Second)
+			if rc == -1 {
+				fail(t, "C05", "mrp-does-not-exit", "mrp under the tracer was still running after 200 s\n%s\n%s", stats.Trunc(p.Log(), 2000), c.describe())
+			}
+			if !p.WaitGroupGone(20 * time.Second) {
+				p.KillGroup()
+				p.WaitGroupGone(5 * time.Second)
+			}
+			comp := c.Completed()
+			_, psErr := os.Stat(c.PsDir())
+			switch {
+			case rc == 0:
+				classes = append(classes, "crash:not-reached")
+			case psErr != nil:
+				classes = append(classes, "crash:before-pipestance-exists")
+			case len(comp) == 0:
+				classes = append(classes, "crash:before-first-completion")
+			case len(comp) >= len(c.model.Jobs):
+				classes = append(classes, "crash:after-last-completion")
+			default:
+				classes = append(classes, "crash:inside-run")
+				inside = true
+			}
+			c.logf("run %d: killed at system call %d of a thread: exit %d, %d of %d jobs complete", c.Runs, n, rc, len(comp), len(c.model.Jobs))
+			if rc == 0 {
+				break
+			}
+			if _, tsErr := os.Stat(filepath.Join(c.PsDir(), "_timestamp")); tsErr != nil && psErr == nil {
+				// mrp died while it was creating the pipestance directory
+				// (the last file it writes there is _timestamp)
+				if stats.Known("C05/killed-while-creating-the-pipestance") {
+					// known finding: such a directory can neither be
+					// re-attached to nor invoked into; the operator removes it
+					os.RemoveAll(c.PsDir())
+					stats.Count("C05", "excluded_known:killed-while-creating-the-pipestance", 1)
+					classes[len(classes)-1] = "crash:while-creating-the-pipestance"
+				}
+			}
+			os.Remove(filepath.Join(c.PsDir(), "_lock"))
+			for id := range comp {
+				completedBefore[id] = true
+			}
+			restartAt = time.Now().UnixNano()
+		}
+		p, err := c.Start("--localcores=4", "--localmem=8")
+		if err != nil {
+			t.Fatalf("INFRA: %v", err)
+		}
+		if rc := p.Wait(300 * time.Second); rc != 0 {
+			fail(t, "C05", "restart-does-not-complete", "the restarted mrp exited with %d\n%s\n%s", rc, stats.Trunc(p.Log(), 3000), c.describe())
+		}
+		c.checkFinal(t, "C05")
+		if c.Locked() {
+			fail(t, "C05", "lock-left-after-success", "%s", c.describe())
+		}
+		for _, r := range c.Ledger() {
+			if restartAt > 0 && r.Start > restartAt && completedBefore[r.Identity] {
+				fail(t, "C05", "completed-job-executed-again", "job %s (attempt %d) ran after the last restart although its _complete existed before\n%s", r.Identity, r.Attempt, c.describe())
+			}
+		}
+		got, err := ledgerMultiset(c.prog, c.Ledger(), true)
+		if err != nil {
+			t.Fatalf("INFRA: %v", err)
+		}
+		if d := compareMultisets(modelMultiset(c.model), got); d != "" {
+			fail(t, "C05", "job-multiset-differs", "%s\n%s", d, c.describe())
+		}
+		sort.Strings(classes)
+		stats.Case("C05", inside, stats.Digest(c.src, strings.Join(c.hist, "|")), append(classes, "e2-crash-point"), func() any {
+			return map[string]any{"program": stats.Trunc(c.src, 800), "history": c.hist}
+		})
+	})
+}
+
+// Reproducer of C05/killed-while-creating-the-pipestance: the state a kill
+// between the first and the last top-level metadata file leaves behind.
+func TestKnownKilledWhileCreating(t *testing.T) {
+	root := workRoot(t)
+	dir := filepath.Join(root, fmt.Sprintf("e2known%d", os.Getpid()))
+	defer os.RemoveAll(dir)
+	p := &mrogen.Program{U: &mrogen.Universe{Structs: []*mrogen.Struct{{Name: "S0", Fields: []mrogen.Field{{Name: "f", T: tInt}}}}}}
+	p.Stages = []*mrogen.Stage{st("A", []mrogen.Param{pm("p", tInt)}, []mrogen.Param{pm("o", tInt)})}
+	top := &mrogen.Pipeline{Name: "TOP", Ins: []mrogen.Param{pm("n", tInt)}, Outs: []mrogen.Param{pm("r", tInt)},
+		Calls: []*mrogen.Call{{Id: "A", Callee: "A", Bindings: []mrogen.Binding{{Param: "p", E: self("n")}}}},
+		Ret:   []mrogen.Binding{{Param: "r", E: out("A", "o")}}}
+	p.Pipelines = []*mrogen.Pipeline{top}
+	p.Top = &mrogen.Call{Id: "TOP", Callee: "TOP", Bindings: []mrogen.Binding{{Param: "n", E: lit(num(1), tInt)}}}
+	m := os.Getenv("VERIF_MROOT")
+	if m == "" {
+		t.Skip("no VERIF_MROOT")
+	}
+	c, err := mrprun.New(p, p.Source(nil), dir, m, &plan.Plan{Faults: map[string]plan.Fault{}})
+	if err != nil {
+		t.Fatalf("INFRA: %v", err)
+	}
+	// what InvokePipeline has written when it is killed after _invocation
+	os.MkdirAll(filepath.Join(c.PsDir(), "TOP", "fork0"), 0o755)
+	os.MkdirAll(filepath.Join(c.PsDir(), "journal"), 0o755)
+	os.WriteFile(filepath.Join(c.PsDir(), "_invocation"), []byte(p.Source(nil)), 0o644)
+	pr, err := c.Start("--localcores=2", "--localmem=2")
+	if err != nil {
+		t.Fatalf("INFRA: %v", err)
+	}
+	if rc := pr.Wait(120 * time.Second); rc != 0 {
+		fmt.Printf("KNOWN-PRESENT C05/killed-while-creating-the-pipestance: mrp exits with %d on a directory it was killed in while creating it: %s\n", rc, stats.Trunc(pr.Log(), 300))
+	}
 }
